@@ -316,6 +316,31 @@ func genOp(t *rapid.T, p qProfile, cfg QCfg) QOp {
 		if k == "listdead" {
 			op.Inc = rapid.IntRange(0, 7).Draw(t, "inc")
 		}
+	case "att":
+		op.IDs = []string{fmt.Sprintf("att-%d", rapid.IntRange(0, 40).Draw(t, "att_id"))}
+		op.BeforeOf = genID(t, p, "event")
+		op.Route = rapid.SampledFrom(qRoutes).Draw(t, "route")
+		op.Target = rapid.SampledFrom(qTargets).Draw(t, "target")
+		op.N = rapid.IntRange(0, 3).Draw(t, "attempt")
+		op.Ms = rapid.SampledFrom([]int{0, 200, 500, 429}).Draw(t, "status")
+		op.Reason = rapid.SampledFrom([]string{"", "timeout", "  padded  "}).Draw(t, "error")
+		op.State = rapid.SampledFrom([]string{"", "acked", "retry", "dead"}).Draw(t, "outcome")
+		op.Order = rapid.SampledFrom([]string{"", "max_retries", " no_retry "}).Draw(t, "dead_reason")
+	case "latt":
+		if rapid.IntRange(0, 2).Draw(t, "froute") == 0 {
+			op.Route = rapid.SampledFrom(qRoutes).Draw(t, "route")
+		}
+		if rapid.IntRange(0, 3).Draw(t, "ftarget") == 0 {
+			op.Target = rapid.SampledFrom(qTargets).Draw(t, "target")
+		}
+		if rapid.IntRange(0, 3).Draw(t, "fevent") == 0 {
+			op.BeforeOf = genID(t, p, "event")
+		}
+		op.State = rapid.SampledFrom([]string{"", "", "acked", "retry", "dead", "bogus"}).Draw(t, "outcome")
+		op.N = rapid.SampledFrom(qLimits).Draw(t, "limit")
+		if rapid.IntRange(0, 3).Draw(t, "before") == 0 {
+			op.BeforeMs = rapid.SampledFrom([]int{10, 50, 100, 1000}).Draw(t, "before_ms")
+		}
 	case "stats", "reopen":
 	case "adv":
 		switch rapid.IntRange(0, 5).Draw(t, "adv_kind") {
@@ -458,6 +483,7 @@ func profileC12() qProfile {
 func profileC13() qProfile {
 	w := baseWeights()
 	w["reopen"] = 0
+	w["att"], w["latt"] = 3, 2
 	return qProfile{name: "C13", backends: []string{"both"}, depths: []int{0, 0, 1, 2, 3, 5},
 		drops: []string{"reject", "drop_oldest"}, retention: true, pressure: false, maxOps: 40,
 		weights: w, padSingle: false, explicitTS: 4, blankIDs: true, deliveredOK: false}
